@@ -1,4 +1,4 @@
-\* leg A: 3 consecutive exchanges (TC or not), cancellation, late in-order answers, stale UDP duplicates: every caller gets what its own reply demands
+\* non-vacuity: a stale UDP reply of a finished exchange is taken for the current one -> OwnReply must fail
 SPECIFICATION Spec
 CONSTANTS
   N = 3
@@ -9,15 +9,15 @@ CONSTANTS
   TcChoices = {TRUE, FALSE}
   Overlap = FALSE
   Burst = 0
-  EnvCancel = TRUE
+  EnvCancel = FALSE
   EnvClose = FALSE
   EnvDup = TRUE
   Matching = FALSE
   ReuseBusy = FALSE
   IdleOnCancel = FALSE
   ForgetKeepsIdle = FALSE
-  DupAccepted = FALSE
+  DupAccepted = TRUE
   WithHist = FALSE
   Export = FALSE
-INVARIANTS TypeOK C17SeqInv BusyNotIdle
+INVARIANTS C17SeqInv
 CHECK_DEADLOCK FALSE
